@@ -34,7 +34,12 @@ THEOREMS = ['C14_squeeze_closed_form', 'C14_content_layout',
             'C14_split_cell_void', 'C14_split_cell_material',
             'C14_front_layout', 'C14_surface_card_layout',
             'C14_surface_layout_invariant', 'C14_data_card_layout',
-            'C14_to_float_spellings']
+            'C14_to_float_spellings', 'C14_front_layout_plain',
+            'C14_blocks_layout_any', 'C14_front_metamorphic',
+            'C14_front_metamorphic_case', 'C14_surface_metamorphic',
+            'C14_split_cell_rendered', 'C14_cell_metamorphic',
+            'C14_material_cell_parsed', 'C14_split_likebut',
+            'C14_options_trailing_blank', 'C14_shorthand_invariant']
 TRUSTED = [
     'hand-written model coq/C14/Model.v (modelled, tied by execution only); '
     'regexes re-implemented as scanners: tied exhaustively on short strings '
@@ -112,8 +117,8 @@ EXHAUSTIVE = [
     ('cell_split', ' 01a(', 5, 7, [('', ''), ('1 0 ', ''), ('1 1 ', ''), ('7 like 1 but', '')]),
     ('cell_split', ' 0)*:i-', 3, 5, [('3 0 -1', ''), ('3 2 -1.0 (1', ''), ('3 00 ', ' imp:n=1')]),
     ('opt_tokens', ' :=(Aa)', 4, 6, [('', ''), ('imp', '1')]),
-    ('to_float', '1.+-eEdD', 5, 7, [('', ''), ('1.5', ''), ('-.', '0')]),
-    ('to_float', '10.+-d', 6, 8, [('', '')]),
+    ('to_float', '1.+-eEdD', 4, 6, [('', ''), ('1.5', ''), ('-.', '0')]),
+    ('to_float', '10.+-d', 5, 7, [('', '')]),
     ('front', 'a \nc', 5, 7, [('t\n', ''), ('t\n1 0 1\n\n', ''), ('message:\n\nt\n', '\n\na')]),
 ]
 
@@ -280,6 +285,80 @@ def prepare_lines(res, tier):
     return job, finish
 
 
+EXPAND_ALPHABET = ['1', '2', '-3', '0', 'r', '2r', '3R', 'i', '2i', '1I', '3m', '2M',
+                   'm', 'j', '2J', 'x', '12', '0r', '0J']
+
+
+def prepare_expand(res, tier):
+    '''expand_data_card (nR nI xM nJ) on all token sequences up to a length
+    from EXPAND_ALPHABET, with and without an expected count; values compared
+    as exact fractions, by fingerprint.'''
+    nmax = 4 if tier == 'quick' else 5
+    cases, buckets, total = [], [], 0
+    for expected in (None, 2, 4):
+        top = nmax if expected is None else nmax - 1
+        for n in range(0, top + 1):
+            firsts = [[]] if n < 3 else [[t] for t in EXPAND_ALPHABET]
+            for pre in firsts:
+                free = n - len(pre)
+                acc = 0
+                for seq in itertools.product(EXPAND_ALPHABET, repeat=free):
+                    toks = pre + list(seq)
+                    out = I.f_expand(toks, expected)
+                    acc = (acc * 1000003 + I.hstr(out, I.hstr(' '.join(toks), 7))) % I.MODULUS
+                    total += 1
+                buckets.append((expected, free, pre))
+                cases.append(cpair(clist(cs(t) for t in EXPAND_ALPHABET), cn(free),
+                                   clist(cs(t) for t in pre),
+                                   common.copt(expected, cn), f'{acc}%uint63'))
+    res.count('expand:sequences', total)
+    res.evaluations += total
+
+    def job():
+        return common.run_case_files(
+            'c14_expand', HEADER, 'list string * N * list string * option N * int',
+            'check_fp_expand', cases, chunk=max(4, len(cases) // 12), jobs=JOBS)
+
+    def finish(result):
+        bad, errs = result
+        res.obligation(f'tie:expand (expand_data_card on all {total} token '
+                       f'sequences of <= {nmax} entries from a '
+                       f'{len(EXPAND_ALPHABET)}-token alphabet, expected in '
+                       '{None, 2, 4}, exact fractions, by fingerprint)',
+                       not bad and not errs, f'{len(bad)} buckets disagree {errs[:1]}')
+        for idx in bad[:3]:
+            expected, free, pre = buckets[idx]
+            explicit = []
+            for seq in itertools.islice(itertools.product(EXPAND_ALPHABET, repeat=free), 3000):
+                toks = pre + list(seq)
+                explicit.append((expected, toks, I.f_expand(toks, expected)))
+            ecases = [cpair(common.copt(e, cn), clist(cs(t) for t in toks), cs(out))
+                      for e, toks, out in explicit]
+            bad2, errs2 = common.run_case_files(
+                f'c14_expandx{idx}', HEADER, 'option N * list string * string',
+                'check_expand', ecases, chunk=400, jobs=JOBS)
+            if errs2:
+                raise RuntimeError(errs2[0][-600:])
+            for k in bad2[:3]:
+                e, toks, out = explicit[k]
+                model, _ = common.coq_eval(
+                    HEADER, f'expand_q {common.copt(e, lambda v: f"{v}%nat")} '
+                    + clist(cs(t) for t in toks))
+                res.violation('correspondence',
+                              f'expand_data_card: model and implementation disagree '
+                              f'on {toks} expected={e}: impl={out!r} model={model}',
+                              {'input': {'tokens': toks, 'expected': e},
+                               'observed': out, 'model': model,
+                               'theorem_or_correspondence': 'tie:expand'},
+                              found_input=False)
+            if not bad2:
+                res.violation('correspondence', 'fingerprint of expand_data_card '
+                              f'behind {pre} differs but no single input was isolated',
+                              {'theorem_or_correspondence': 'tie:expand'},
+                              found_input=False)
+    return job, finish
+
+
 # ---------------------------------------------------------------------------
 # layout tie on generated decks
 # ---------------------------------------------------------------------------
@@ -315,7 +394,7 @@ def malform(rng, text):
 
 
 def prepare_layout(res, tier, rng):
-    n_decks = 30 if tier == 'quick' else 300
+    n_decks = 24 if tier == 'quick' else 300
     triples, meta = [], []
 
     def add(name, inp, nontrivial=True):
@@ -333,9 +412,12 @@ def prepare_layout(res, tier, rng):
         texts = [D.render(deck, None)]
         for _ in range(2):
             texts.append(D.render(deck, D.Layout(rng, numbers=False)))
-        bad_text, kind = malform(rng, rng.choice(texts))
-        res.count('layout:malformed:' + kind)
-        for text in texts + [bad_text]:
+        bad_texts = []
+        for _ in range(3 if tier == 'quick' else 6):
+            bad_text, kind = malform(rng, rng.choice(texts))
+            res.count('layout:malformed:' + kind)
+            bad_texts.append(bad_text)
+        for text in texts + bad_texts:
             add('front_all', text)
             out = I.f_front(text)
             if I.f_front_file(text) != out:
@@ -378,7 +460,7 @@ def prepare_layout(res, tier, rng):
 
     def finish(bad):
         res.obligation(f'tie:layout ({len(uniq)} distinct calls on {n_decks} '
-                       'decks x 3 layouts + 1 malformed: blocks, get_cards, '
+                       'decks x 3 layouts + 3 (thorough 6) malformed: blocks, get_cards, '
                        'splits, option tokens, front)', not bad,
                        f'{len(bad)} disagreements')
         for k in bad[:8]:
@@ -478,6 +560,8 @@ def run_sweep(res, tier, rng):
                           {'input': {'deck': base_text, 'rewrite': base_text,
                                      'args': list(args)}}, found_input=True)
         res.count('sweep:base:' + (base[0] if base[0] == 'ok' else str(base[1])))
+        for feat in D.features(deck):
+            res.count('sweep:deck:' + feat)
         if base[0] == 'ok':
             n_ok += 1
         else:
@@ -589,6 +673,10 @@ CORPUS = [
     ('IMP data card 3r', lambda t: t.replace(' imp:n=1', '').replace(' imp:n=0', '') + 'imp:n 1 3r 0\n'),
     ('IMP data card R R R upper case', lambda t: t.replace(' imp:n=1', '').replace(' imp:n=0', '') + 'IMP:N 1 R R R 0\n'),
     ('IMP data card 1 2i 1 0 -- constant interpolation', lambda t: t.replace(' imp:n=1', '').replace(' imp:n=0', '') + 'imp:n 1 2i 1 0\n'),
+    ('IMP data card 1 1 2 1i 0 -- interpolated descent into the zero (mutation M17)',
+     lambda t: t.replace(' imp:n=1', '').replace(' imp:n=0', '') + 'imp:n 1 1 2 1i 0\n'),
+    ('IMP data card 1 r 2r 0 -- bare r (mutation M13)',
+     lambda t: t.replace(' imp:n=1', '').replace(' imp:n=0', '') + 'imp:n 1 r 2r 0\n'),
     ('upper-case M card', lambda t: t.replace('m1 1001', 'M1 1001')),
     ('blanks around the union colon', lambda t: t.replace('5 0 2 imp', '5 0 2 : 2 imp')),
     ('explicit plus sign', lambda t: t.replace('5 0 2 imp', '5 0 +2 imp')),
@@ -642,8 +730,8 @@ def run_all(res, tier, seed):
     rng_layout = random.Random(rng.random())
     rng_sweep = random.Random(rng.random())
     phases = [prepare_exhaustive(res, tier), prepare_lines(res, tier),
-              prepare_layout(res, tier, rng_layout)]
-    with ThreadPoolExecutor(max_workers=3) as pool:
+              prepare_layout(res, tier, rng_layout), prepare_expand(res, tier)]
+    with ThreadPoolExecutor(max_workers=4) as pool:
         futures = [pool.submit(job) for job, _ in phases]
         run_sweep(res, tier, rng_sweep)
         for (_, finish), fut in zip(phases, futures):
